@@ -276,7 +276,11 @@ func c01Drive(args []string) int {
 			var evs []*c01Event
 			afterTerminal := 0
 			sawTerminal, sawRawAfterFail, lastFail := false, false, false
-			for calls := 0; calls < 400 && afterTerminal < 4; calls++ {
+			// every Read that returns a record or a per-record failure has consumed at least one byte of a finite input
+			// ("after which reading may continue"): more Reads than bytes without a terminal result means it cannot
+			maxCalls := 2*len(in) + 40
+			nreads := 0
+			for calls := 0; calls < maxCalls && afterTerminal < 4; calls++ {
 				e := &c01Event{Tr: trNo}
 				var pv string
 				if calls == 0 && r.Intn(3) == 0 || calls > 0 && r.Intn(10) < 3 {
@@ -302,6 +306,7 @@ func c01Drive(args []string) int {
 					}
 				} else {
 					e.Ev = "Read"
+					nreads++
 					pv, _ = guarded(0, func() {
 						b, err := tr.Read()
 						e.Nilb = b == nil
@@ -325,6 +330,11 @@ func c01Drive(args []string) int {
 					break
 				}
 				evs = append(evs, e)
+			}
+			if !sawTerminal && nreads > len(in)+3 {
+				last := evs[len(evs)-1]
+				violation("C01", "no-terminal-result", fmt.Sprintf("%s: %d Reads over a %d byte input and no terminal result; reading does not continue past a per-record failure (last result class %s)",
+					s.Name, nreads, len(in), last.Class), M{"sample": s.Name, "variant": vi, "input": string(in), "reads": nreads})
 			}
 			// bind the record id of an ok Read to the fingerprint reported by the first RawRecord that follows it
 			next := 1000
